@@ -44,6 +44,11 @@ CLAIMED["C14"] = dict(
     text="Random head-marked trees of arity up to 6 (head first/last/middle, discontinuous nodes, decorated labels) are binarized with and without bare_bin_labels: at most two children everywhere, exactly (arity-2) added nodes per node, each labelled '@'+parent label without co-index (or '@'), and splicing them out must give back the original tree with all fields and head flags; a wide node without any head key must be rejected. Trees with inserted unary chains of length 1..4 at the root, in the middle and above tokens are collapsed (no unary node left, labels joined top-down with '+', equal to the model's collapse) and uncollapsed back to the original labels, words, POS and structure, returning the root.",
     note="Trusted: set model and the model-side collapse in checks/C14.py. One-token sentences are skipped for collapsing (documented caveat). Binarization direction is not part of the statement.",
     ref="DESIGN.md section 2, C14")
+CLAIMED["C04"] = dict(
+    tech="Hypothesis operation sequences (history generation, whole sequence shrinks as one value) with an invariant after every step: raw well-formedness walk, sentence preservation, model-computed label multiset",
+    text="Sequences of up to 6 (quick) / 10 (thorough) transformations drawn from all thirteen structural operations (with relc, bare_bin_labels, both rule presets) are applied to punctuation-rich, partly discontinuous trees; an operation whose documented prerequisite fails on the actual tree is skipped and counted. After every applied step the returned node must be the parentless root of a well-formed tree (no node twice, consistent parent pointers, no childless constituent, tokens 1..n), words unchanged, POS unchanged up to the '+' concatenation of collapsing, sid kept, and the multiset of labels must be exactly what the documentation says for that operation, computed on the set model of the tree before the step.",
+    note="Trusted: raw snapshot walk in vlib/model.py; prerequisite predicates in checks/C04.py (see ASSUMPTIONS in the evidence). Samples sequences, does not enumerate them.",
+    ref="DESIGN.md section 2, C04")
 PENDING_REASON = "check not built yet in this round (planned, see DESIGN.md section 6); not claimed until it is quiet on the unchanged tree"
 
 
